@@ -463,7 +463,8 @@ int main(int argc, char** argv)
         const double maxsecs = atof(argval(argc, argv, "--maxsecs", "1e9"));
         const std::string rdir = argval(argc, argv, "--replays", "replays");
         const int shrinkBudget = atoi(argval(argc, argv, "--shrink", "300"));
-        const long maxfail = atol(argval(argc, argv, "--maxfail", "4"));
+        const long maxfail = atol(argval(argc, argv, "--maxfail", "1"));    // failures minimised per worker
+        const long stopfail = atol(argval(argc, argv, "--stopfail", "3"));  // worker stops after this many failures
         g_scratch = rdir;
         long nfail = 0;
         auto t0 = std::chrono::steady_clock::now();
@@ -509,6 +510,7 @@ int main(int argc, char** argv)
             fflush(stdout);
             double el = std::chrono::duration<double>(std::chrono::steady_clock::now() - t0).count();
             if (el > maxsecs) break;
+            if (nfail >= stopfail) break;
         }
         printf("{\"done\":true}\n");
         return 0;
